@@ -287,7 +287,50 @@ pub fn gen05(ctx: &Ctx) {
             }
         }
     }
+    gen_timeouts(&mut out, &mut rng, if ctx.thorough { 16 } else { 4 });
     out.finish();
+}
+
+/// a read timeout on the server's socket (400 ms) and a sender that pauses for longer (700 ms) in the middle of a body: the
+/// read fails where it stands; whoever was reading (the handler, or the server discarding the rest), the position of the
+/// next request is not established and the connection is closed after the response - the rest of the body and a further
+/// request, sent after the pause, are never looked at.  The first history is the one of seed C05-l: the pause falls inside
+/// a chunk-size line (`3|0`), and the remaining bytes read, by themselves, as a last chunk followed by a request.
+fn gen_timeouts(out: &mut Out, rng: &mut Rng, count: usize) {
+    for i in 0..count {
+        let crafted = i % 3 == 0;
+        let (path, head_part, rest, first_answers): (&str, Vec<u8>, Vec<u8>, bool) = if crafted {
+            let path = *rng.pick(&["/first", "/firstl", "/none"]);
+            let r = Req { method: "POST", path: path.into(), fields: vec![("Transfer-Encoding".into(), b"chunked".to_vec())], body: vec![] };
+            let mut a = r.head(); a.extend(b"3");
+            let inner = b"\r\nGET /none?smuggled HTTP/1.1\r\n\r\n".to_vec();
+            let mut data = inner.clone(); while data.len() < 0x30 { data.push(b'x'); }
+            let mut b = b"0\r\n".to_vec(); b.extend(&data); b.extend(b"\r\n0\r\n\r\n");
+            (path, a, b, true)
+        } else {
+            let path = *rng.pick(&["/all", "/first", "/none", "/k/1000", "/alll", "/firstl", "/k/2"]);
+            let blen = rng.range(8, 200) as usize;
+            let payload: Vec<u8> = (0..blen).map(|j| b'a' + (j % 26) as u8).collect();
+            let fixed = rng.chance(1, 2);
+            let (fields, body) = if fixed { (vec![("Content-Length".to_string(), blen.to_string().into_bytes())], payload.clone()) }
+                                 else { (vec![("Transfer-Encoding".to_string(), b"chunked".to_vec())], chunked(&payload, rng)) };
+            let r = Req { method: "POST", path: path.into(), fields, body };
+            let c = rng.range(1, r.body.len() as u64 - 1) as usize;
+            let mut a = r.head(); a.extend(&r.body[..c]);
+            let mut b = r.body[c..].to_vec(); b.extend(probe().head());
+            // /k/2 has its two bytes and answers before the pause as well
+            (path, a, b, path.starts_with("/first") || path == "/none" || (path == "/k/2" && c >= 2 && fixed))
+        };
+        let mut steps = vec![format!("D{}", hex(&head_part))];
+        if first_answers { steps.push("R".into()); }
+        // (a read that has delivered part of a chunk returns those bytes and the next one waits once more: the reader gives up
+        // within two timeouts, 800 ms; in the crafted history nothing of a chunk has been delivered: one timeout, and the rest
+        // arrives within the next one - the window in which the changed code of seed C05-l goes on reading)
+        steps.push((if crafted { "P700" } else { "P1200" }).into());
+        steps.push(format!("D{}", hex(&rest)));
+        steps.push("R".into()); steps.push("R".into());
+        finish_case_warm(out, "4096,T400", steps, &format!("read-timeout/{}{path}", if crafted { "size-line" } else { "mid-body" }));
+    }
 }
 
 // ------------------------------------------------------------------------------------------ C07
@@ -354,7 +397,8 @@ pub fn gen07(ctx: &Ctx) {
             2 => { let mut b = b"5\r\nhelloXX".to_vec(); b.extend(b"0\r\n\r\n"); (vec![("Transfer-Encoding".to_string(), b"chunked".to_vec())], b, "bad-crlf") }
             _ => { (vec![("Transfer-Encoding".to_string(), b"chunked".to_vec())], b"zz\r\nhello\r\n0\r\n\r\n".to_vec(), "bad-size") }
         };
-        let path = *rng.pick(&["/all", "/none", "/first", "/k/3", "/close"]);
+        // (/alll and /firstl: the handler reads through the BufRead face)
+        let path = *rng.pick(&["/all", "/none", "/first", "/k/3", "/close", "/firstl", "/alll", "/firstl"]);
         let r = Req { method: "POST", path: path.into(), fields, body };
         let g = rng.chance(1, 2);
         let mut steps = exchange(&mut rng, &r, g);
@@ -445,6 +489,7 @@ pub fn gen07(ctx: &Ctx) {
         all.extend(b"GET /b HTTP/1.1\r\nthis header line has no colon\r\n");
         finish_case(&mut out, 4096, vec![format!("D{}", hex(&all)), "R".into(), "R".into()], "pipelined-malformed-prefix");
     }
+    gen_timeouts(&mut out, &mut rng, if ctx.thorough { 24 } else { 6 });
     // hold histories: request i answers before its body is read; the rest of its body and the whole next
     // request reach the server in one piece while the handler is held
     let m = if ctx.thorough { 600 } else { 60 };
@@ -466,6 +511,96 @@ pub fn gen07(ctx: &Ctx) {
     out.finish();
 }
 
+
+// ------------------------------------------------------------------------------------------ pipelined histories (C03 C05 C06 C09 C10)
+/// stream `connpipe`: requests sent without waiting for the answers, against head limits from 64 to 16384 bytes; the same
+/// bytes under several segmentations (scripts joined by '#', as in `segpair`).  What is read beyond a request's body is
+/// carried over to the next request: however much that is (more than the head limit, more than the body reader's 4 KiB
+/// buffer, more than both), every request whose head fits the limit is answered, in order, from its own bytes.
+pub fn gen_pipe(ctx: &Ctx) {
+    let mut rng = Rng::new(ctx.seed, "connpipe");
+    let mut out = Out::new(&ctx.dir, "connpipe");
+    out.rule = "pipelined requests on one connection under head limits N in {64, 256, 1024, 4096, 16384}: (a) a chunked first request whose body runs past the first N bytes of its segment, followed by more than N \
+                (or more than N + 4096) bytes of further requests with fixed-length / chunked / no bodies, optionally ending with a head of N+1 bytes; (b) N = 16384: a short chunked first request followed in the same \
+                segment by 5..12 KB of further requests; (c) a response that closes with a request pipelined behind it; (d) a carried malformed prefix without a blank line. Each as one segment, cut at a random point, \
+                and in small pieces where no close is involved: all segmentations must give the same transcript, and it must be the sequential reading of the bytes. non-trivial = at least two requests answered".into();
+    let small_req = |rng: &mut Rng, nreq: usize| -> Req {
+        match rng.below(4) {
+            0 => { let b: Vec<u8> = (0..rng.range(1, 60)).map(|i| b'A' + ((i + nreq as u64) % 26) as u8).collect(); Req { method: "POST", path: format!("/all?n={nreq}"), fields: vec![("Content-Length".to_string(), b.len().to_string().into_bytes())], body: b } }
+            1 => Req { method: "GET", path: format!("/none?n={nreq}"), fields: vec![], body: vec![] },
+            2 => { let b = format!("carried chunked body {nreq}"); Req { method: "POST", path: format!("/all?c={nreq}"), fields: vec![("Transfer-Encoding".to_string(), b"chunked".to_vec())], body: chunked(b.as_bytes(), rng) } }
+            _ => Req { method: "GET", path: format!("/nosuch/{nreq}"), fields: vec![], body: vec![] },
+        }
+    };
+    let emit = |out: &mut Out, rng: &mut Rng, n: usize, all: &[u8], nreq: usize, styles: &[u64], class: &str| {
+        let scripts: Vec<String> = styles.iter().map(|&st| {
+            let mut steps: Vec<String> = cut(rng, all, st).iter().map(|s| format!("D{}", hex(s))).collect();
+            for _ in 0..nreq { steps.push("R".into()); }
+            format!("N={n};{}", steps.join(";"))
+        }).collect();
+        let case = scripts.join("#");
+        let res = run_segpair(&case);
+        let answered = res.split('#').next().unwrap_or("").split(|c| c == ';' || c == '|').filter(|e| e.len() > 3 && e.as_bytes()[3] == b',').count();
+        out.emit(&case, &res, class, answered >= 2);
+    };
+    // (a)
+    for &n in &[64usize, 256, 1024, 4096, 16384] {
+        for variant in 0..(if ctx.thorough { 16 } else { 4 }) {
+            let blen = n + 40 + rng.below(200) as usize;
+            let payload: Vec<u8> = (0..blen).map(|i| b'a' + (i % 26) as u8).collect();
+            let first = Req { method: "POST", path: (*rng.pick(&["/all?first", "/none", "/first", "/k/5"])).to_string(), fields: vec![("Transfer-Encoding".to_string(), b"chunked".to_vec())], body: chunked(&payload, &mut rng) };
+            let mut all: Vec<u8> = first.head(); all.extend(&first.body);
+            let mut nreq = 1;
+            let start = all.len();
+            // variant 2: more than the body reader's read-ahead as well, so that part of the tail is still in the socket
+            let want = if variant % 4 == 2 && n <= 4096 { n + 4096 + 1500 } else { n + 100 };
+            while all.len() - start < want || nreq < 3 {
+                let r = small_req(&mut rng, nreq);
+                if r.head().len() + 4 > n { if n <= 64 { let g = Req { method: "GET", path: "/".into(), fields: vec![], body: vec![] }; all.extend(g.head()); nreq += 1; } continue; }
+                all.extend(r.head()); all.extend(&r.body); nreq += 1;
+                if nreq > 600 { break; }
+            }
+            let tail431 = variant % 4 == 3 && n <= 256 && all.len() - start < 2800;
+            if tail431 {
+                let mut r = Req { method: "GET", path: "/none".into(), fields: vec![], body: vec![] };
+                let base = r.head().len(); if n + 1 > base + 5 { r.fields.insert(0, ("x".into(), vec![b'p'; n + 1 - base - 5])); all.extend(r.head()); nreq += 1; }
+            }
+            // (a close with bytes still unread in the server's socket resets the connection and the client loses the answers it
+            // has not read yet: the history that ends in 431 is delivered as one segment only)
+            let styles: &[u64] = if tail431 { &[0] } else { &[0, 1, 3] };
+            emit(&mut out, &mut rng, n, &all, nreq, styles, &format!("carry-beyond-limit/N={n}{}", if tail431 { "/431" } else if want > n + 100 { "/long" } else { "" }));
+        }
+    }
+    // (b)
+    for _ in 0..(if ctx.thorough { 12 } else { 3 }) {
+        let payload: Vec<u8> = (0..rng.range(1, 300)).map(|i| b'a' + (i % 26) as u8).collect();
+        let first = Req { method: "POST", path: (*rng.pick(&["/all?first", "/none", "/first"])).to_string(), fields: vec![("Transfer-Encoding".to_string(), b"chunked".to_vec())], body: chunked(&payload, &mut rng) };
+        let mut all: Vec<u8> = first.head(); all.extend(&first.body);
+        let mut nreq = 1;
+        let start = all.len();
+        let want = rng.range(5000, 12000) as usize;
+        while all.len() - start < want { let r = small_req(&mut rng, nreq); all.extend(r.head()); all.extend(&r.body); nreq += 1; }
+        emit(&mut out, &mut rng, 16384, &all, nreq, &[0, 1, 3], "arrived-with-the-head/N=16384");
+    }
+    // (c)
+    for first in ["/close", "/closer", "/none+close", "/none+hookclose", "/err", "/errafter"] {
+        let (path, fields): (&str, Vec<(String, Vec<u8>)>) = match first {
+            "/none+close" => ("/none", vec![("Connection".to_string(), b"close".to_vec())]),
+            "/none+hookclose" => ("/none", vec![("x-hook".to_string(), b"answer-close".to_vec())]),
+            p => (p, vec![]) };
+        let r1 = Req { method: "GET", path: path.into(), fields, body: vec![] };
+        let r2 = Req { method: "GET", path: "/none?behind".into(), fields: vec![], body: vec![] };
+        let mut all = r1.head(); all.extend(r2.head());
+        emit(&mut out, &mut rng, 4096, &all, 2, &[0], &format!("behind-close{first}"));
+    }
+    // (d)
+    {
+        let mut all = Req { method: "GET", path: "/none?a".into(), fields: vec![], body: vec![] }.head();
+        all.extend(b"GET /b HTTP/1.1\r\nthis header line has no colon\r\n");
+        emit(&mut out, &mut rng, 4096, &all, 2, &[0], "malformed-prefix");
+    }
+    out.finish();
+}
 
 // ------------------------------------------------------------------------------------------ C03 (pairs)
 /// stream `segpair`: a request with a body followed (lock-step) by a probe, the first request delivered under several
